@@ -340,6 +340,9 @@ def r4_wildcard(ctx):
         ctx.floor('leaf assignment in update_from', len(leaf), 1)
     elif ctx.floor('leaf assignment in update_from', len(leaf), 1):
         atoms = [a for _, a in f.guard_atoms(leaf[0].b)]
+        # (the test may sit in a `.filter(..)` / `.filter_map(..)` on the traversal feeding the loop)
+        for arg in leaf[0].args[1:]:
+            atoms += iter_filter_facts(f, f.expr_operand(arg, leaf[0].b, 'T'))
         ok = any(a[0] == 'bool' and a[1][0] == 'call' and a[1][1].endswith('::contains') and a[2] is False for a in atoms)
         ctx.check(ok, 'leaf-skips-wildcards', "entries that still contain '<any>' are not turned into properties", leaf[0].where(), [show_atom(a) for a in atoms][:5])
 
